@@ -16,7 +16,13 @@ PLAN = {
     "C11": {"quick": [("miri", 6)], "thorough": [("miri", 16), ("asan", 1), ("checked", 1)]},
     "C12": {"quick": [("miri", 8)], "thorough": [("miri", 32), ("asan", 1), ("tsan", 4)]},
     "C13": {"quick": [("miri", 3), ("checked", 1)], "thorough": [("miri", 8), ("asan", 1), ("checked", 1)]},
-    "C04": {"quick": [], "thorough": [("asan", 1), ("miri", 4)]},
+    "C04": {"quick": [], "thorough": [("asan", 1), ("miri", 4), ("checked", 1)]},
+    # the repository's own debug_assert!s (SIMD first-character assertion, BufferQueue non-empty
+    # invariant, tendril slice bounds) act as extra monitors in the debug-assertion profile
+    "C01": {"quick": [], "thorough": [("checked", 1)]},
+    "C03": {"quick": [], "thorough": [("checked", 1), ("asan", 1)]},
+    "C08": {"quick": [], "thorough": [("checked", 1)]},
+    "C09": {"quick": [], "thorough": [("checked", 1)]},
     "C20": {"quick": [("miri", 2)], "thorough": [("miri", 8), ("asan", 1)]},
 }
 
